@@ -5,12 +5,14 @@
   of the accessor model `Access.lean` — the model `C03.accessors_inbounds` is proved about — for every payload the class's
   validator accepts, at any position of any memory.  `src*Access` combines the translated accessors the way the harness's
   `access` operation combines the real ones; a null pointer is address 0 (hence `0 < pre.length`).
-  (The capture-module string accessors use `std::string_view` and are outside the translated subset.)
+  The capture-module accessors are included: `std::string_view` is translated as a (pointer, length) pair, `find` /
+  `remove_suffix` by the primitives `svFind` / `svRemoveSuffix` of Src/Sem.lean.
 -/
 import AsamCmp.GeneratedSrc
 import AsamCmp.Access
 import AsamCmp.Props.SrcTie
 import AsamCmp.Lemmas.SrcAccess
+import AsamCmp.Lemmas.SrcAccessCm
 set_option linter.unusedSimpArgs false
 namespace AsamCmp.SrcTie
 open AsamCmp AsamCmp.Src AsamCmp.SrcGen
@@ -101,5 +103,34 @@ theorem if_access_src (pre b post : Bytes) (this : Nat) (hpre : 0 < pre.length) 
     if_vlptr_src pre b post this hb (by omega), if_vl_src pre b post this hb (by omega) hfit, ifAccess, model_rd,
     bind, pure, some_bind, bne_iff_ne, ne_eq, ite_some, srcView, dataView, off_ptr, Nat.add_assoc, Nat.reduceAdd,
     ptr_sub]
+
+def srcCmAccess (m : Bytes) (pd sz this : Nat) : Option (List View) := do
+  let d ← CaptureModulePayload_getDeviceDescription m pd sz this
+  let s ← CaptureModulePayload_getSerialNumber m pd sz this
+  let hw ← CaptureModulePayload_getHardwareVersion m pd sz this
+  let sw ← CaptureModulePayload_getSoftwareVersion m pd sz this
+  let vl ← CaptureModulePayload_getVendorDataLength m pd sz this
+  let vp ← CaptureModulePayload_getVendorData m pd sz this
+  pure [⟨"deviceDescription", some (d.1 - pd), d.2⟩, ⟨"serialNumber", some (s.1 - pd), s.2⟩, ⟨"hardwareVersion", some (hw.1 - pd), hw.2⟩,
+        ⟨"softwareVersion", some (sw.1 - pd), sw.2⟩, ⟨"vendorData", some (vp - pd), vl⟩]
+
+theorem cm_access_src (pre b post : Bytes) (this : Nat) (h : (pre ++ b ++ post).length < 2 ^ 64)
+    (hv : cmValid b = true) :
+    srcCmAccess (pre ++ b ++ post) pre.length b.length this = cmAccess b := by
+  have hb := mem_lt pre b post h
+  unfold cmValid at hv
+  simp only [Bool.and_eq_true, decide_eq_true_eq] at hv
+  obtain ⟨h26, hv1⟩ := hv
+  -- the five blocks: length `lᵢ`, end `pᵢ₊₁` (= start of the next block), all inside `b`
+  obtain ⟨l1, p2, e1, q1, hl1, hb1, hv2⟩ := blocksOk_block b 4 26 h26 hv1
+  obtain ⟨l2, p3, e2, q2, hl2, hb2, hv3⟩ := blocksOk_block b 3 p2 hb1 hv2
+  obtain ⟨l3, p4, e3, q3, hl3, hb3, hv4⟩ := blocksOk_block b 2 p3 hb2 hv3
+  obtain ⟨l4, p5, e4, q4, hl4, hb4, hv5⟩ := blocksOk_block b 1 p4 hb3 hv4
+  obtain ⟨l5, p6, e5, q5, hl5, hb5, _⟩ := blocksOk_block b 0 p5 hb4 hv5
+  simp (disch := omega) only [srcCmAccess, CaptureModulePayload_getDeviceDescription,
+    CaptureModulePayload_getSerialNumber, CaptureModulePayload_getHardwareVersion,
+    CaptureModulePayload_getSoftwareVersion, CaptureModulePayload_getVendorDataLength,
+    CaptureModulePayload_getVendorData, initStringView_src, removeTrailingNulls_src, e1, e2, e3, e4, e5, q1, q2, q3, q4,
+    q5, bind, pure, some_bind, ptr_sub, Nat.mod_eq_of_lt, cmAccess, cmBlock, trimNul, model_rd, if_pos]
 
 end AsamCmp.SrcTie
